@@ -3,10 +3,12 @@
 
   Scope (DESIGN §2 C20): (a) every `Display`/`FromStr` pair and (b) every HAND-WRITTEN serde impl of
   rust-elements, over the models `EV.Model.Text` and `EV.Model.Serde` (serde data model `SVal`, what a
-  self-describing format forgets: `lossy`). `#[derive(Serialize, Deserialize)]` expansions (the PSET maps,
-  `TxOutSecrets`, `TapTree`, `ControlBlock`, `SchnorrSig`, …) and the concrete syntax of serde_json /
-  serde_cbor are OUTSIDE the model: they are exercised on the real code only (harness S stream). That is why
-  the summary theorem at the end is named `…_partial`.
+  self-describing format forgets: `lossy`). and (c) every `#[derive(Serialize, Deserialize)]`
+  item (the PSET maps, `TxOutSecrets`, `TapTree`, `ControlBlock`, `SchnorrSig`, …) through the table-driven
+  interpreter `EV.Model.SerdeDerive` (section (c) below; the serde impls of third-party leaf types are the
+  hypothesis `DepsLawful`). The concrete byte syntax of serde_json / serde_cbor stays OUTSIDE the model: it is
+  exercised on the real code only (harness S stream). The hand-written summary keeps its historical name
+  `serde_roundtrip_handwritten_partial`; `serde_roundtrip_all` combines it with the derived items.
 
   `h` is `is_human_readable()`, `f` the format; `compatible h f` excludes the one impossible combination
   (a format that forgets byte strings, JSON, is always human readable). `P : Prims` are the parse-acceptance
